@@ -23,8 +23,8 @@ import (
 type Engine struct {
 	BadPkgs    map[string][]string // initial packages left out by a tolerant Load, with their errors
 	NoBatch    bool                // solve every frame obligation on its own
-	mapValOnce sync.Once
-	mapValKeys map[string]bool // heap cells that can hold map values
+	mapValMu   sync.Mutex
+	mapValKeys map[string]map[string]bool // per package: heap cells that can hold map values
 	Fset       *token.FileSet
 	Prog       *ssa.Program
 	Pkgs       []*packages.Package
